@@ -1,3 +1,4 @@
+import Mercure.Lemmas.BoltStore
 import Mercure.Lemmas.Retention
 /-
   C08 — Last-Event-ID negotiation tells the subscriber truthfully whether it lost data.
@@ -142,6 +143,22 @@ example : negotiate [(3, ⟨['a'], [], false, [], [], 0⟩), (4, ⟨['b'], [], f
     = (['a'], [⟨['b'], [], false, [], [], 0⟩, ⟨['c'], [], false, [], [], 0⟩]) := by decide +kernel
 example : (negotiate [(3, ⟨['a'], [], false, [], [], 0⟩), (4, ⟨['b'], [], false, [], [], 0⟩)] ['z']).1 = ['b'] := by decide +kernel
 
+/-! ### at the level of the bytes in the bucket (Model/BoltStore) -/
+
+/-- The id the Bolt transport announces is computed by comparing `string(k[8:])` of the stored keys with
+    the requested id, key after key in byte order. On every bucket the hub can have written this is the
+    id `negotiate` announces — the one all the theorems above are about; in particular a requested id
+    that is only a *part* of a stored key (a proper suffix or prefix of a stored id, bytes of the sequence
+    prefix) is never "found". -/
+theorem byte_level_announced_id (debug : Bool) (b : BoltStore.Bucket) (db : List (Nat × Update))
+    (req : Str) (toSeq : Nat) (wf : BoltStore.WellFormed debug b db)
+    (hr : ∀ e ∈ db, e.2.retry < 2 ^ 64) (hto : ∀ e ∈ db, e.1 ≤ toSeq) :
+    BoltStore.respMatches (BoltStore.scan (BoltStore.reqBytes req) toSeq b).1 (negotiate db req).1 :=
+  (BoltStore.scan_refines BoltStore.rt_holds debug b db req toSeq wf hr hto).1
+
+/-- ids are compared as byte strings and that is the comparison of the strings themselves -/
+theorem id_bytes_injective : Function.Injective utf8Bytes := BoltStore.utf8Bytes_injective
+
 end Mercure.C08
 
 #print axioms Mercure.C08.carrier_precedence
@@ -153,3 +170,5 @@ end Mercure.C08
 #print axioms Mercure.C08.found_replays_everything_after
 #print axioms Mercure.C08.otherwise_differs
 #print axioms Mercure.C08.resp_earliest_iff_whole_history
+#print axioms Mercure.C08.byte_level_announced_id
+#print axioms Mercure.C08.id_bytes_injective
